@@ -16,10 +16,19 @@
              whenever prev is observable (lr # 0 or data empty) it equals the suffix of buf[:off]
              of the length the normal form keeps (in particular prev = <<>>  <=>  off = 0)
      CapOK   len(buf) <= cap, 0 <= off <= len(buf)
+     HRel    the ownership contract of Buffer.tla (`held`) against the storage: what the caller
+             keeps is here (`ch`) either a private copy (ReadBytes / ReadString: append to a nil
+             slice, string conversion) or, for Bytes() and Next(), a REGION [lo, hi) of buf itself
+             (b.buf[b.off:], b.buf[off:off+n]); a store through it is a store into buf.  Invariant:
+             the same number and kinds of kept slices on both sides, and every one of them reads
+             the same bytes - i.e. inside the window the abstract model grants (until the next
+             modifying call) an alias really shows, and changes, exactly what the model says, with
+             every capacity history; Rel keeps holding under the caller's stores.
 
    Variables: c = [buf, off, lr, cap, isnil] the concrete buffer (buf includes the consumed
    prefix buf[:off]; cap is cap(buf); isnil: buf == nil, which selects the small-buffer branch),
-   st the abstract state of Buffer.tla driven by the same calls, ok the agreement flag.
+   st / held the abstract state of Buffer.tla driven by the same calls, ch the caller's slices as
+   the storage algorithm sees them, ok the agreement flag.
    Rounding of allocations to size classes is modelled by the nondeterministic `round`.        *)
 EXTENDS Buffer
 
@@ -28,7 +37,7 @@ CONSTANTS SmallBuf,     \* smallBufferSize (64) scaled down
           MaxCap,       \* bound on the capacity explored
           GrowCounts    \* arguments of Grow
 
-VARIABLES c, ok
+VARIABLES c, ok, ch
 
 Zeros(k) == [x \in 1..k |-> 0]
 CLen(b) == Len(b.buf) - b.off
@@ -139,31 +148,55 @@ CWriteTo(b0, wn, werr) ==
 -----------------------------------------------------------------------------
 (* lock-step product: the same call on the algorithm and on the abstract model *)
 
+\* the caller's kept slices on the storage side: [tag, reg, val, lo, hi]
+CopyOf(tag, v) == [tag |-> tag, reg |-> FALSE, val |-> v, lo |-> 0, hi |-> 0]
+Region(tag, lo, hi) == [tag |-> tag, reg |-> TRUE, val |-> <<>>, lo |-> lo, hi |-> hi]
+CVal(b, h) == IF h.reg THEN SubSeq(b.buf, h.lo + 1, h.hi) ELSE h.val
+\* the call op took the buffer from b0 to co.c and returned co.b
+CH(op, b0, co, arg) ==
+    LET H1 == IF Modifies(op) THEN SelectSeq(ch, IsOwned) ELSE ch
+        v == IF op \in {"Write", "WriteString"} THEN arg ELSE co.b
+        h == CASE HandTag(op) = "bytes" -> Region("bytes", b0.off, Len(b0.buf))         \* b.buf[b.off:]
+               [] HandTag(op) = "next" -> Region("next", b0.off, co.c.off)              \* b.buf[off : off+n]
+               [] OTHER -> CopyOf(HandTag(op), v)
+    IN IF op \in Retain /\ HandTag(op) # "none" /\ co.pan = NoPanic /\ v # <<>> THEN Push(H1, h, Hold) ELSE H1
+
 SameResult(co, ao) ==
     /\ co.pan = ao.pan
     /\ co.pan = NoPanic => (co.err = ao.err /\ co.n = ao.n /\ co.m = ao.m /\ co.b = ao.b)
     /\ CData(co.c) = ao.st.data                                  \* Len / Bytes / String
 
-Both(co, ao) == c' = co.c /\ st' = ao.st /\ ok' = SameResult(co, ao)
+Both(op, arg, co, ao) == /\ c' = co.c /\ st' = ao.st /\ ok' = SameResult(co, ao)
+                         /\ held' = HC(op, ao, arg) /\ ch' = CH(op, c, co, arg)
 FitsC(b) == CLen(c) + Len(b) <= MaxLen
 
-IWrite(k, rd) == FitsC(Payloads[k]) /\ Both(CWrite(c, Payloads[k], rd), OpWrite(st, Payloads[k]))
-IWriteByte(x, rd) == FitsC(<<x>>) /\ Both(CWriteByte(c, x, rd), OpWriteByte(st, x))
-IWriteRune(r, rd) == FitsC(Encode(r)) /\ Both(CWriteRune(c, r, rd), OpWriteRune(st, r))
-IRead(k) == k >= 0 /\ Both(CRead(c, k), OpRead(st, k))
-INext(k) == Both(CNext(c, k), OpNext(st, k))
-IReadByte == Both(CReadByte(c), OpReadByte(st))
-IReadRune == Both(CReadRune(c), OpReadRune(st))
-IUnreadByte == Both(CUnreadByte(c), OpUnreadByte(st))
-IUnreadRune == Both(CUnreadRune(c), OpUnreadRune(st))
-IReadBytes(d) == Both(CReadSlice(c, d), OpReadSlice(st, d))
-ITruncate(k) == Both(CTruncate(c, k), OpTruncate(st, k))
-IReset == Both(COk(CReset(c)), OpReset(st))
-IGrow(k, rd) == Both(CGrowCall(c, k, rd), OpGrow(st, k, CAvail(c)))       \* avail: what Available() shows
-IReadFrom(k, fin, rd) == FitsC(Payloads[k]) /\ Both(CReadFrom(c, Payloads[k], fin, rd), OpReadFrom(st, Payloads[k], fin))
+IWrite(k, rd) == FitsC(Payloads[k]) /\ Both("Write", Payloads[k], CWrite(c, Payloads[k], rd), OpWrite(st, Payloads[k]))
+IWriteByte(x, rd) == FitsC(<<x>>) /\ Both("WriteByte", <<>>, CWriteByte(c, x, rd), OpWriteByte(st, x))
+IWriteRune(r, rd) == FitsC(Encode(r)) /\ Both("WriteRune", <<>>, CWriteRune(c, r, rd), OpWriteRune(st, r))
+IRead(k) == k >= 0 /\ Both("Read", <<>>, CRead(c, k), OpRead(st, k))
+INext(k) == Both("Next", <<>>, CNext(c, k), OpNext(st, k))
+IReadByte == Both("ReadByte", <<>>, CReadByte(c), OpReadByte(st))
+IReadRune == Both("ReadRune", <<>>, CReadRune(c), OpReadRune(st))
+IUnreadByte == Both("UnreadByte", <<>>, CUnreadByte(c), OpUnreadByte(st))
+IUnreadRune == Both("UnreadRune", <<>>, CUnreadRune(c), OpUnreadRune(st))
+IReadBytes(d) == Both("ReadBytes", <<>>, CReadSlice(c, d), OpReadSlice(st, d))
+ITruncate(k) == Both("Truncate", <<>>, CTruncate(c, k), OpTruncate(st, k))
+IReset == Both("Reset", <<>>, COk(CReset(c)), OpReset(st))
+IGrow(k, rd) == Both("Grow", <<>>, CGrowCall(c, k, rd), OpGrow(st, k, CAvail(c)))       \* avail: what Available() shows
+IReadFrom(k, fin, rd) == FitsC(Payloads[k]) /\ Both("ReadFrom", <<>>, CReadFrom(c, Payloads[k], fin, rd), OpReadFrom(st, Payloads[k], fin))
 IWriteTo(m, fin) == LET wn == WriterCount(st, m, fin)
                         we == IF fin = "err" THEN "injected" ELSE Nil
-                    IN Both(CWriteTo(c, wn, we), OpWriteTo(st, wn, we))
+                    IN Both("WriteTo", <<>>, CWriteTo(c, wn, we), OpWriteTo(st, wn, we))
+\* Bytes(): b.buf[b.off:] - nothing moves
+IBytes == Both("Bytes", <<>>, CR(c, 0, 0, CData(c), Nil, NoPanic), OpContents(st))
+\* the caller stores v at position j of its k-th slice: into its private copy, or into buf
+IPoke(k, at, v) ==
+    /\ k \in DOMAIN held /\ k \in DOMAIN ch /\ CanPoke(held, k, PokeIdx(k, at))
+    /\ LET j == PokeIdx(k, at) IN
+       /\ st' = PokeSt(st, held[k], j, v) /\ held' = PokeHeld(held, k, j, v)
+       /\ IF ch[k].reg THEN c' = [c EXCEPT !.buf[ch[k].lo + j] = v] /\ ch' = ch
+          ELSE c' = c /\ ch' = [ch EXCEPT ![k].val[j] = v]
+    /\ ok' = ok
 
 \* constructors: zero value / NewBuffer(nil) (isnil), NewBuffer(b) with some spare capacity
 IInit ==
@@ -171,7 +204,7 @@ IInit ==
          /\ nl => (b = <<>> /\ spare = 0)
          /\ c = [buf |-> b, off |-> 0, lr |-> 0, cap |-> Len(b) + spare, isnil |-> nl]
          /\ st = New(b)
-    /\ ok = TRUE
+    /\ ok = TRUE /\ held = <<>> /\ ch = <<>>
 
 INext_ ==
     \/ \E k \in 1..Len(Payloads), rd \in 0..1 : IWrite(k, rd)
@@ -186,8 +219,13 @@ INext_ ==
     \/ \E k \in 1..Len(Payloads), fin \in {"eof", "err", "neg"}, rd \in 0..1 : IReadFrom(k, fin, rd)
     \/ \E fin \in {"ok", "over"} : IWriteTo(0, fin)
     \/ \E m \in 0..MaxLen, fin \in {"short", "err"} : IWriteTo(m, fin)
+    \/ IBytes
+    \/ \E k \in 1..Hold, at \in {"first", "last"}, v \in PokeVals : IPoke(k, at, v)
 
-ISpec == IInit /\ [][INext_]_<<c, st, ok>>
+ISpec == IInit /\ [][INext_]_<<c, st, ok, held, ch>>
+
+\* VIEW: as in Buffer.tla the bytes of a private copy have no influence on any later step
+ImplView == <<c, st, ok, HeldView, [k \in DOMAIN ch |-> [ch[k] EXCEPT !.val = <<>>]]>>
 
 CapBound == c.cap <= MaxCap            \* CONSTRAINT
 
@@ -199,6 +237,11 @@ Rel ==
     /\ st.data = CData(c)
     /\ st.lr = c.lr
     /\ (st.lr # 0 \/ st.data = <<>>) => st.prev = LastK(Take(c.buf, c.off), KeepLen(st.lr))
+
+HRel == /\ Len(ch) = Len(held)
+        /\ \A k \in DOMAIN ch : /\ ch[k].tag = held[k].tag /\ ch[k].reg = IsAlias(held[k])
+                                 /\ ch[k].reg => (ch[k].lo >= 0 /\ ch[k].hi <= Len(c.buf))
+                                 /\ CVal(c, ch[k]) = held[k].val
 
 CapOK == /\ Len(c.buf) <= c.cap /\ c.off >= 0 /\ c.off <= Len(c.buf)
          /\ c.isnil => (c.cap = 0 /\ c.buf = <<>>)
